@@ -126,7 +126,8 @@ CLAIMED = {
  "C09": dict(
    text="Bounded symbolic check with the residual and its Jacobian as UNINTERPRETED functions (so every residual function is covered): the real minimize<Analytic> loop is executed "
         "symbolically for max_iter in {0,1} (2 thorough), both trust-region strategies; on every path z3 decides that the costs handed to the callback are non-increasing, the "
-        "argument finally holds the last iterate, iter <= max_iter, MaxIters is reported only at the bound and callbacks <= iter+1.",
+        "argument finally holds the last iterate, iter <= max_iter, MaxIters is reported only at the bound and callbacks <= iter+1.  Where monotonicity is not entailed, z3's model of "
+        "PC & cost increases is realised by a concrete quadratic residual through the model's values and replayed on the natively built minimize (a reproduced increase is the violation).",
    note=TB + "; scalar residual with one unknown; convergence to the minimiser within 1e-3 and multi-dimensional residuals are not claimed; rounding of f outside.",
    ref="DESIGN 4/C09", technique="symbolic execution of LLVM IR with uninterpreted residual (congruence axioms) + SMT"),
  "C10": dict(
